@@ -51,6 +51,11 @@ func Load(repo string, extraEnv ...string) (*Prog, error) {
 			fmt.Fprintf(os.Stderr, "helper normalisation skipped: %v\n", err)
 		} else {
 			overlay, normalized = ov, done
+			if d := os.Getenv("VSA_DUMP_OVERLAY"); d != "" {
+				for f, b := range ov {
+					os.WriteFile(d+"/"+strings.ReplaceAll(strings.TrimPrefix(f, repo+"/"), "/", "__"), b, 0o644)
+				}
+			}
 		}
 	}
 	fset := token.NewFileSet()
